@@ -484,4 +484,64 @@ example :
     let e : Env := { scopes := [(.global, [(['x'], { value := .str ['1'], readonly := true })])] }
     stepR e (.declare ['x'] { l := some true } .declare (some (.scalar ['A', 'b'])) false false false) = (e, false) := by decide
 
+/-! ## context independence (the context sweep's theorem) -/
+
+/-- operations a builtin performs inside its own command scope -/
+def BuiltinWriter : Op → Prop
+  | .unset _ => True
+  | .unsetIndex _ _ => True
+  | .exportName _ _ => True
+  | .exportAssign _ _ _ _ => True
+  | .assignDefault _ _ => True
+  | .updateOrAdd _ _ _ _ k => k ≠ .command
+  | .updateOrAddElem _ _ _ _ k => k ≠ .command
+  | .declare _ _ _ _ _ _ _ => True
+  | .assign _ _ _ _ => True
+  | _ => False
+
+/-- **command_scope_transparent.**  Every builtin runs inside a command scope of its own
+(`execute_command` pushes it, `post_execute` pops it).  For every writer a builtin performs —
+`unset`, `unset n[i]`, `export`, `read`/`printf -v`/`getopts`/`mapfile`/`(( ))` (`update_or_add*`),
+`${n:=…}`, `declare`/`local`/`readonly`, and a plain assignment evaluated under one — running it under
+that extra empty scope gives exactly the result of running it without, with the empty scope on top:
+the writer reads and writes only the bindings that were visible before, in any environment. -/
+theorem command_scope_transparent (e : Env) (op : Op) (h : BuiltinWriter op) :
+    stepR (e.push .command) op = lift (stepR e op) := by
+  cases op with
+  | unset n => exact unset_push_command e n
+  | unsetIndex n i => exact unsetIndex_push e n i
+  | exportName n un => exact exportName_push e n un
+  | exportAssign n lit ap un => exact exportAssign_push e n lit ap un
+  | assignDefault n v => exact assignDefault_push e n v
+  | updateOrAdd n lit u pol k => exact updateOrAdd_push e n lit u pol k h
+  | updateOrAddElem n i v pol k => exact updateOrAddElem_push e n i v pol k h
+  | declare n fl verb lit ai na inf => exact declare_push e n fl verb lit ai na inf
+  | assign n idx lit ap => exact applyPlain_push e n idx lit ap false
+  | push k => exact h.elim
+  | pop k => exact h.elim
+  | add n v k => exact h.elim
+  | pushTemp items => exact h.elim
+
+/-- **observers_ignore_wrapper_scopes.**  What a name resolves to and what a child process receives do
+not depend on how many empty scopes (the probe's own command scope, the frames of a probing function)
+lie on top: the observers of the sweep see the same bindings in every wrapper. -/
+theorem observers_ignore_wrapper_scopes (e : Env) (ks : List Kind) (n : Str) :
+    (ks.foldl Env.push e).get n = e.get n ∧ (ks.foldl Env.push e).childEnv = e.childEnv := by
+  refine ⟨callee_sees_callers_locals e n ks, ?_⟩
+  induction ks generalizing e with
+  | nil => rfl
+  | cons k r ih =>
+    simp only [List.foldl]
+    rw [ih]
+    simp [Env.childEnv, Env.push, exportedScopes]
+
+/-- non-vacuity: `read x` inside `f` (local x over a global x), with and without the builtin's command scope -/
+example :
+    let e : Env := { scopes := [(.loc, [(['x'], { value := .str ['l'] })]), (.command, []), (.global, [(['x'], { value := .str ['g'], exported := true })])] }
+    BuiltinWriter (.updateOrAdd ['x'] (.scalar ['v']) .nop .anywhere .global) ∧
+      (stepR (e.push .command) (.updateOrAdd ['x'] (.scalar ['v']) .nop .anywhere .global)).1.scopes =
+        [(.command, []), (.loc, [(['x'], { value := .str ['v'] })]), (.command, []), (.global, [(['x'], { value := .str ['g'], exported := true })])] ∧
+      ((e.push .command).push .loc).childEnv = [(['x'], ['g'])] := by
+  refine ⟨by simp [BuiltinWriter], by decide, by decide⟩
+
 end BrushVerif.C09
